@@ -96,6 +96,8 @@ def strategy_(draw):
         c["tau_fixed_factor"] = draw(st.floats(-1.0, 1.0))
         c["guess"] = [draw(st.floats(-6.0, 14.0)), draw(st.floats(-6.0, 8.0))]
         c["guess_len"] = draw(st.sampled_from([1, 2]))
+        # production records are often whole numbers held in integer arrays (days, Mscf)
+        c["int_record"] = draw(st.integers(0, 3)) == 0
     if kind == "bad-bounds":
         c["bad"] = draw(st.sampled_from(["M-arity1", "M-arity3", "tau-arity1", "tau-arity3", "M-equal", "M-reversed", "tau-equal", "tau-reversed"]))
         c["v"] = [draw(st.floats(0.0, 1e6)), draw(st.floats(1e-9, 1e6))]
@@ -220,6 +222,11 @@ def check_case(case) -> Result:
     b, (mlo, mhi), (tlo, thi) = _bounds(case, M, tau)
     rng = np.random.default_rng(case["noise_seed"])
     y = y_clean * np.exp(case["noise"] * rng.standard_normal(len(t)))
+    if case.get("int_record") and M >= 1e3 and tau >= 1.0:
+        # integer days and integer cumulative volumes (the containment and optimum oracles hold for any data)
+        t = np.arange(1, len(t) + 1, dtype=np.int64) * max(1, int(round(case["end"] * tau / len(t))))
+        y = np.maximum(1, np.rint(M * np.asarray(rf(t / tau), float) * np.exp(case["noise"] * rng.standard_normal(len(t))))).astype(np.int64)
+        res.labels["record_dtype"] = "int64"
     f = ForecasterOnePhase(rf) if b is None else ForecasterOnePhase(rf, b)
     default_guess = [2 * y[-1], 5 * t[-1]]
     outside = not (mlo <= default_guess[0] <= mhi) or (kind == "bounded-fit" and not (tlo <= default_guess[1] <= thi))
@@ -253,6 +260,7 @@ def check_case(case) -> Result:
     if not (mlo <= f.M_ <= mhi):
         res.bad("C05/fitted-parameters-inside-bounds", f"fixed-tau fit: M_={f.M_!r} outside ({mlo!r},{mhi!r})")
     r = np.asarray(rf(t / tau_fix), float)
+    y = np.asarray(y, float)  # the harness's own arithmetic in floating point (integer records overflow in y.y)
     if float(np.dot(r, r)) > 0:
         m_star = float(np.dot(y, r) / np.dot(r, r))
         want = min(max(m_star, mlo), mhi)
